@@ -50,8 +50,11 @@ def run(tier, rep, replay=None):
     lbad, _ = C.validate_lines(d, "Trace_Large", "Lines.cfg", llines)
     for i in lbad:
         ln = llines[i]
+        if ln["ev"] == "print":
+            rep.violation("tkn20:print-after-use:%s" % ("panic" if ln["panics"] else ("reparse" if not ln["reparse_ok"] else "answers-differ")), {"observed": ln, "explain": "a policy printed after it has been used does not parse back to an equivalent policy (Trace_Large.tla)"})
+            continue
         rep.violation("tkn20:large-policy:leaves=%d:%s" % (ln["leaves"], "panic" if ln["panics"] else "undecryptable"), {"observed": ln, "explain": "Encrypt accepted the policy but the satisfying key cannot decrypt (Trace_Large.tla)"})
-    rep.add(large_policies=[l["leaves"] for l in llines])
+    rep.add(large_policies=[l["leaves"] for l in llines if l["ev"] == "large"], printed_policies=sum(1 for l in llines if l["ev"] == "print"))
     if thorough:
         # quick enumerates <=2 leaves completely; thorough <=3 leaves (16 648 formulas), all decrypted
         args = ["-ndec", "16648", "-ntamper", "3000"]
